@@ -564,6 +564,12 @@ func (c *Ctx) lenOrdering() {
 				if f := call.Common().StaticCallee(); f != nil && f.Name() == "msglen" && recvNamed(f) != "header" {
 					hasBody = true
 				}
+				// the body length handed in as a function value (`h.totalLen(m.msglen)`)
+				if !call.Common().IsInvoke() && call.Common().StaticCallee() == nil {
+					if sig, ok := call.Common().Value.Type().Underlying().(*types.Signature); ok && sig.Params().Len() == 0 && sig.Results().Len() == 1 {
+						hasBody = true
+					}
+				}
 			}
 		}
 		if !hasBody {
